@@ -178,6 +178,11 @@ structure Kernel where
   tbl : Table := {}
   addrs : List Ip := []
   outbound : List Pkt := []
+  /-- Model variant for finding F-C17-1. `false` = the code as it is: a never-accepted child
+      that is aborted while still in `SynReceived` (peer RST, or SYN-ACK retransmissions
+      exhausted) stays in the table for ever, and so does its binding.  `true` = proposed
+      repair: such a child is removed at the moment it is aborted. -/
+  fixReap : Bool := false
 deriving Repr, Inhabited
 
 inductive Err
@@ -382,7 +387,11 @@ def handleEstablished (k : Kernel) (fd : Fd) (l r : Ep) (ack fin : Bool) : Kerne
       if takeFin then k.emit ⟨l, r, .tcp false true false false⟩ else k
 
 def handleOnConn (k : Kernel) (fd : Fd) (l r : Ep) (syn ack fin rst : Bool) : Kernel :=
-  if rst then k.modTcb fd fun tc => { tc with state := .closed, reset := true }
+  if rst then
+    if k.fixReap && (match k.tbl.get fd with
+        | some s => (match s.tcb with | some tc => tc.state == .synRecv | none => false)
+        | none => false) then { k with tbl := k.tbl.remove fd }
+    else k.modTcb fd fun tc => { tc with state := .closed, reset := true }
   else
     match k.tbl.get fd with
     | none => k
@@ -448,7 +457,8 @@ def checkRetx (k : Kernel) : Kernel :=
         if !(handshake || data) then k
         else if tc.esa + 1 < retxThreshold then k.modTcb s.fd fun tc => { tc with esa := tc.esa + 1 }
         else if tc.retx ≥ retxMax then
-          k.modTcb s.fd fun tc => { tc with esa := tc.esa + 1, state := .closed, timedOut := true }
+          if k.fixReap && tc.state == .synRecv then { k with tbl := k.tbl.remove s.fd }
+          else k.modTcb s.fd fun tc => { tc with esa := tc.esa + 1, state := .closed, timedOut := true }
         else
           let k := k.modTcb s.fd fun tc =>
             { tc with esa := 0, retx := tc.retx + 1, finSent := if handshake then tc.finSent else false }
@@ -590,9 +600,9 @@ deriving Repr, Inhabited
 
 namespace Fabric
 
-def addHost (f : Fabric) (addrs : List Ip) : Fabric :=
+def addHost (f : Fabric) (addrs : List Ip) (fixReap : Bool := false) : Fabric :=
   let id := f.hosts.length
-  { hosts := f.hosts ++ [{ addrs := addrs.eraseDups }],
+  { hosts := f.hosts ++ [{ addrs := addrs.eraseDups, fixReap := fixReap }],
     ipToHost := f.ipToHost ++ addrs.map fun a => (a, id) }
 
 def hostForIp (f : Fabric) (ip : Ip) : Option Nat :=
